@@ -3,7 +3,7 @@ from . import wasm
 from .wasm import (I32, I64, F32, F64, NUMERIC, SAT, LOADS, STORES, Module, Func, natural_align)
 from .pools import draw_value, is_snan, quiet
 
-EXCLUDED = {'snan_immediate': 0}     # shapes excluded by construction because of a listed known finding
+EXCLUDED = {'snan_immediate': 0, 'clang_fold_demote_subnormal': 0}     # shapes excluded by construction because of a listed known finding
 
 VTS = (I32, I64, F32, F64)
 INTS = (I32, I64)
